@@ -21,6 +21,8 @@ pub proof fn axiom_zigzag_inverse()
 
 @@zigzag_decode@@
 
+@@zigzag_encode@@
+
 // ---- specification --------------------------------------------------------------------------
 pub open spec fn wadd(a: u64, b: u64) -> u64 { ((a as int + b as int) % 0x1_0000_0000_0000_0000int) as u64 }
 pub open spec fn swrap(x: int) -> i64 {
@@ -106,6 +108,10 @@ impl DeltaEncoding {
     /// Representation invariant established by both encoders.
     pub open spec fn wf(&self) -> bool { self.count == 0 || self.count == self.deltas@.len() + 1 }
 
+    @@DeltaEncoding::encode@@
+
+    @@DeltaEncoding::encode_signed@@
+
     @@DeltaEncoding::decode@@
 
     @@DeltaEncoding::decode_signed@@
@@ -113,6 +119,23 @@ impl DeltaEncoding {
     @@DeltaEncoding::len@@
 
     @@DeltaEncoding::is_empty@@
+}
+
+// ---- C15 round trips, unbounded, over the contracts alone ---------------------------------------------
+fn roundtrip_unsigned(values: &[u64]) -> (out: Vec<u64>)
+    requires sorted(values@),
+    ensures out@ == values@,
+{
+    let e = DeltaEncoding::encode(values);
+    proof { if values@.len() > 0 { lemma_roundtrip(values@); } }
+    e.decode()
+}
+fn roundtrip_signed(values: &[i64]) -> (out: Vec<i64>)
+    ensures out@ == values@,
+{
+    let e = DeltaEncoding::encode_signed(values);
+    proof { axiom_zigzag_inverse(); if values@.len() > 0 { lemma_roundtrip_signed(values@); } }
+    e.decode_signed()
 }
 
 } // verus!
@@ -128,6 +151,33 @@ def build(repo):
     z.ensures('unzz', 'r == unzz(value)')
     u.trust('external_body zigzag_decode', 'signed-shift bit trick; its contract (inverse of zigzag_encode on all 2^64 inputs) is proved by Kani unit codec_kani, not by Verus')
     u.trust('external_body axiom_zigzag_inverse', 'unzz(zz(v)) == v for all v: the statement Kani proves for the real zigzag_decode/zigzag_encode')
+
+
+    ze = u.free_fn(SRC, 'zigzag_encode').D1().ret('r')
+    ze.sig_attr('#[verifier::external_body]')
+    ze.ensures('zz', 'r == zz(value)')
+    u.trust('external_body zigzag_encode', 'signed-shift bit trick; proved inverse to zigzag_decode by Kani unit codec_kani')
+
+    # ---- encode / encode_signed: adapter chains rewritten (R15), unbounded ----
+    f = u.method(SRC, 'DeltaEncoding', 'encode').D1().ret('r')
+    f.resub('X1', r'debug_assert!\(\s*values\.windows\(2\)\.all\(\|w\| w\[0\] <= w\[1\]\),\s*"[^"]*"\s*\);', 'assert(sorted(values@));', flags=0)
+    f.R15('deltas')
+    f.requires('sorted', 'sorted(values@)')
+    f.ensures('wf', 'r.wf() && r.count == values@.len()')
+    f.ensures('deltas_are_diffs', 'values@.len() > 0 ==> r.base == values@[0] && r.deltas@ == diffs(values@)')
+    L = f.loop(0).kind('for')
+    L.invariants(('sorted', 'sorted(values@) && values@.len() > 0'),
+                 ('prefix', 'deltas@.len() == i__ - 1 && forall|k: int| 0 <= k < i__ - 1 ==> #[trigger] deltas@[k] == (values@[k + 1] - values@[k]) as u64'))
+    L.after('proof { assert(deltas@ =~= diffs(values@)); }')
+
+    f = u.method(SRC, 'DeltaEncoding', 'encode_signed').D1().ret('r')
+    f.R15('deltas')
+    f.ensures('wf', 'r.wf() && r.count == values@.len()')
+    f.ensures('deltas_are_zigzag_diffs', 'values@.len() > 0 ==> r.base == zz(values@[0]) && r.deltas@ == sdiffs(values@)')
+    L = f.loop(0).kind('for')
+    L.invariants(('nonempty', 'values@.len() > 0'),
+                 ('prefix', 'deltas@.len() == i__ - 1 && forall|k: int| 0 <= k < i__ - 1 ==> #[trigger] deltas@[k] == zz(swsub(values@[k + 1], values@[k]))'))
+    L.after('proof { assert(deltas@ =~= sdiffs(values@)); }')
 
     f = u.method(SRC, 'DeltaEncoding', 'decode').D1().R1().ret('r')
     f.ensures('empty', 'self.count == 0 ==> r@.len() == 0')
@@ -167,6 +217,5 @@ def build(repo):
     f.ensures('count', 'r == self.count')
     f = u.method(SRC, 'DeltaEncoding', 'is_empty').D1().ret('r')
     f.ensures('count', 'r == (self.count == 0)')
-    u.not_covered += ['DeltaEncoding::{encode, encode_signed} (windows().map().collect(): Kani bounded stand-in checks deltas == diffs/sdiffs), max_delta, bits_for_max_delta, to_bytes/from_bytes (Kani bounded)']
-    u.assume('the decoder contracts + lemma_roundtrip{,_signed} give decode(encode(v)) == v once the encoder meets `deltas == diffs(v)` (checked by Kani for lengths <= bound, not proved unboundedly)')
+    u.not_covered += ['DeltaEncoding::{max_delta, bits_for_max_delta, to_bytes/from_bytes (Kani bounded)']
     return u
